@@ -35,7 +35,7 @@ ASSUMPTIONS = [
 EXHAUSTIVE = {"quick": False, "thorough": False}
 FLOORS = {"quick": {"cases": 2000, "status:NO": 700, "status:BYE": 500, "status:OK": 500,
                     "sentinel-pairs": 1200, "random-cases": 3000,
-                    "slow-starttls-connects": 15},
+                    "slow-starttls-connects": 15, "logout-cases": 100},
           "thorough": {"cases": 1500000, "status:NO": 500000, "status:BYE": 250000,
                        "status:OK": 250000, "sentinel-pairs": 500000, "random-cases": 1500000}}
 SHARD_TIMEOUT = {"quick": 600, "thorough": 3000}
@@ -255,6 +255,28 @@ def run_multistep(res: Result):
                                    out[1] if out[0] == "exc" else repr(out[1]))},
                               {"op": "connect", "handshake_seconds": hs,
                                "seconds_per_recv": per, "outcome": repr(out)[:200]})
+    # logout: the reply to LOGOUT is a final reply like any other - BYE raises Error whatever
+    # its shape, OK does not raise
+    for st in ("OK", "BYE"):
+        for cn, code in CODES[:5]:
+            for tn, text, how in TEXTS[:10]:
+                srv = ms.Server(users={b"user": b"pw"})
+                sess, r = mslab.authed_session(srv)
+                srv.canned = [reply_bytes(st, code, text, how)]
+                out = sess.call("logout")
+                res.count("cases")
+                res.count("status:" + st)
+                res.count("logout-cases")
+                res.case("logout/%s/%s/%s" % (st, cn, tn))
+                ok = (out[0] == "exc" and out[1] == "Error") if st == "BYE" else out[0] == "ret"
+                res.monitor("status-mirror", not ok)
+                if not ok:
+                    res.violation({"status": st, "code": "none" if code is None else "atom",
+                                   "text": "none" if text is None else how,
+                                   "problem": "logout-%s:%s" % (st, out[1] if out[0] == "exc"
+                                                                else "returned")},
+                                  {"op": "logout", "reply": reply_bytes(st, code, text, how),
+                                   "outcome": repr(out)[:200]})
     # connect: fault at greeting and at authentication
     for step in ("greeting", "auth-verdict"):
         for f in ("NO", "BYE"):
